@@ -655,4 +655,21 @@ func scriptedAgentScenarios(o *out, prop string) {
 		s.gs.Delete(goid())
 		emitHistory(o, prop, "overlapping-collects-after-mass-collect", s.calls)
 	}
+	// (d) the handler of a transaction's terminal event (a response, a stop, a timeout) registers the same ID
+	// again: the transaction is already gone, so that Start succeeds and the new transaction stays
+	for _, term := range [][]int{{3, 1, 0x0101}, {2, 1, 0}, {2, 1, 7}, {4, 5}} {
+		s, g := newScenario()
+		fired := false
+		s.script = func(s *scenario, g *gstate, ev agentEv) {
+			if !fired && ev.id == 1 {
+				fired = true
+				s.doCall(g, []int{1, 1, 50})
+			}
+		}
+		for _, op := range [][]int{{1, 1, 1}, {1, 2, 1}, term, {1, 1, 60}, {4, 9}, {3, 1, 0x0101}, {6}} {
+			s.doCall(g, op)
+		}
+		s.gs.Delete(goid())
+		emitHistory(o, prop, fmt.Sprintf("handler-restarts-same-id after op %v", term), s.calls)
+	}
 }
